@@ -34,7 +34,7 @@ def run(ctx):
     rt, mp, rc, pr = (ctx.path("route.ndjson"), ctx.path("maps.ndjson"), ctx.path("races.ndjson"),
                       ctx.path("pressure.ndjson"))
     out = ctx.harness(binary, ["-plans", pdir, "-out", rt, "-maps", mp, "-races", rc, "-seed", ctx.seed,
-                               "-pressure", pr, "-npress", ctx.q(200, 6000),
+                               "-pressure", pr, "-npress", ctx.q(200, 4000),
                                "-nrace", ctx.q(4000, 80000), "-nracekeep", ctx.q(900, 20000),
                                "-nroutecold", ctx.q(100, 3000), "-nrand", ctx.q(16, 120), "-nextra", ctx.q(2, 24),
                                "-hist", ctx.q(150, 4000), "-maxops", ctx.q(60, 200)],
